@@ -1,5 +1,71 @@
-import DaeVerif.C17.Model
-/-! Helper lemmas for C17. -/
+import DaeVerif.C17.ParserProofs
+import DaeVerif.C17.LexProofs
+import DaeVerif.C17.MergeProofs
+import DaeVerif.C17.ConfigProofs
+import DaeVerif.C17.DefaultsProofs
+/-! Helper lemmas for C17 live in `ParserProofs`, `LexProofs`, `MergeProofs`, `ConfigProofs`;
+this file adds the few that combine them. -/
 namespace DaeVerif.C17
+
+/-- the key or name an item is written under (rule: name of its first function) -/
+def Items.heads : Items → List (List Char)
+  | .nil => []
+  | .rule r rest => r.first.name :: rest.heads
+  | .decl d rest => d.key :: rest.heads
+  | .lit l rest => l.val :: rest.heads
+  | .sec n _ rest => n :: rest.heads
+
+def AItem.head : AItem → List Char
+  | .rule fs _ => (fs.head?.map (·.name)).getD []
+  | .str k v _ => if k.isEmpty then v else k
+  | .fns k _ _ => k
+  | .sec n _ => n
+
+theorem walkFn_some {f : CFn} {g : Fn} (h : walkFn f = some g) :
+    f.params ≠ [] ∧ g = ⟨f.name, f.neg, f.params.map CParam.kv⟩ := by
+  unfold walkFn at h
+  split at h
+  · simp at h
+  · rename_i hne
+    simp only [Option.some.injEq] at h
+    exact ⟨by simpa using hne, h.symm⟩
+
+theorem walkItems_heads : ∀ (items : Items) (as : List AItem), walkItems items = some as →
+    (∀ d, ∀ rest, items = .decl d rest → True) → as.length = items.heads.length := by
+  intro items
+  induction items with
+  | nil => intro as h _; simp only [walkItems, Option.some.injEq] at h; subst h; rfl
+  | rule r rest ih =>
+    intro as h _
+    simp only [walkItems] at h
+    split at h
+    · rename_i a as' _ h2
+      simp only [Option.some.injEq] at h; subst h
+      simp [Items.heads, ih as' h2 (fun _ _ _ => trivial)]
+    · simp at h
+  | decl d rest ih =>
+    intro as h _
+    simp only [walkItems] at h
+    split at h
+    · rename_i a as' _ h2
+      simp only [Option.some.injEq] at h; subst h
+      simp [Items.heads, ih as' h2 (fun _ _ _ => trivial)]
+    · simp at h
+  | lit l rest ih =>
+    intro as h _
+    simp only [walkItems] at h
+    split at h
+    · rename_i as' h2
+      simp only [Option.some.injEq] at h; subst h
+      simp [Items.heads, ih as' h2 (fun _ _ _ => trivial)]
+    · simp at h
+  | sec n body rest _ ihr =>
+    intro as h _
+    simp only [walkItems] at h
+    split at h
+    · rename_i b as' _ h2
+      simp only [Option.some.injEq] at h; subst h
+      simp [Items.heads, ihr as' h2 (fun _ _ _ => trivial)]
+    · simp at h
 
 end DaeVerif.C17
